@@ -8,6 +8,8 @@ import (
 	"strings"
 
 	"golang.org/x/tools/go/ssa"
+
+	"golang.org/x/tools/go/cfg"
 )
 
 // execRoots: everything that runs while a block is processed.
@@ -434,4 +436,55 @@ func ruleExecConfinement(c *Ctx) {
 	}
 	c.OK("closure-scanned", "pkg/core", fmt.Sprintf("%d stores in %d functions of the execution closure; %d target a package-level variable or a native contract object (all tabled)", nstores, len(fns), nflag))
 	c.Floor("stores scanned", nstores, 2000)
+}
+
+// ledger-traceable: what the Ledger native tells a contract about a block or transaction must not depend on how much
+// history the node keeps: data beyond MaxTraceableBlocks is reported as unknown by every node, archival or pruning.
+// Every method of native Ledger that looks a block or a transaction up returns data derived from the lookup only
+// behind the isTraceableBlock test.
+func ruleLedgerTraceable(c *Ctx) {
+	pk := c.P.Pkg(natPkg)
+	if pk == nil {
+		c.Lost("anchor", "package native not found")
+		return
+	}
+	lookups := []string{"pkg/core/native.getTransactionAndHeight", "pkg/core/dao.(*Simple).GetTxExecResult", "pkg/core/dao.(*Simple).GetBlock", "pkg/core/native.getBlockHashFromItem"}
+	n := 0
+	for _, fd := range c.P.AllFuncDecls() {
+		if fd.Pkg != pk || fd.Decl.Body == nil || fd.Decl.Recv == nil || !namedTypeIs(pk.TypesInfo.TypeOf(fd.Decl.Recv.List[0].Type), natPkg, "Ledger") {
+			continue
+		}
+		f := c.P.NewFuncCFG(fd)
+		uses := false
+		for _, s := range lookups {
+			if len(f.CallSites(s)) > 0 {
+				uses = true
+			}
+		}
+		if !uses || fd.Decl.Name.Name == "isTraceableBlock" {
+			continue
+		}
+		// returns whose value derives from the lookup
+		targets := map[*cfg.Block]bool{}
+		for _, r := range f.Returns() {
+			m := f.DirectMentions(r.node)
+			for _, s := range lookups {
+				if m["local<-"+s] {
+					targets[r.blk] = true
+				}
+			}
+		}
+		if len(targets) == 0 {
+			continue
+		}
+		n++
+		key := FuncKey(fd.Obj) + ".traceable"
+		res := f.CheckGate(f.Entry(), targets, Guard{ID: "traceable", Doc: "data about a block/transaction is given out only if the block is within MaxTraceableBlocks", Alts: [][]string{{"pkg/core/native.(*Ledger).isTraceableBlock"}}}, nil)
+		if res.OK {
+			c.OK(key, c.P.Pos(fd.Decl.Pos()), res.Msg)
+		} else {
+			c.Fail(key, c.P.Pos(fd.Decl.Pos()), FuncKey(fd.Obj)+" gives out data of a looked-up block/transaction without the traceability test: an archival node answers for an old transaction, a pruning node (whose GC removed it) answers null - the same contract call diverges with the node's retention setting: "+res.Msg, res.Path...)
+		}
+	}
+	c.Floor("Ledger methods returning looked-up data", n, 4)
 }
